@@ -30,6 +30,8 @@ type Apps struct {
 	mtDenomAbs  map[string]string
 	mtIDReal    map[string]string
 	mtIDAbs     map[string]string
+	// packets as really announced by send_packet events, by src|dst|seq (the first announcement, i.e. the source's)
+	sentByKey map[string]*Pkt
 }
 
 const badReceiver = "not-a-bech32-address"
@@ -240,10 +242,38 @@ func (a *Apps) lookupBytes(d *AppData, src, dst string, seq uint64) ([]byte, boo
 }
 
 // register remembers the exact bytes of a packet announced by a send_packet event.
-func (a *Apps) register(src, dst string, seq uint64, port string, b []byte) {
+func (a *Apps) register(src, dst string, seq uint64, relay, port string, b []byte) {
 	if rec := a.decode(b, port); rec != nil {
 		a.r.Tags.data[pktKey(src, dst, seq, rec)] = append([]byte{}, b...)
+		if a.sentByKey == nil {
+			a.sentByKey = map[string]*Pkt{}
+		}
+		k := fmt.Sprintf("%s|%s|%d", src, dst, seq)
+		if _, ok := a.sentByKey[k]; !ok {
+			a.sentByKey[k] = &Pkt{Src: src, Dst: dst, Relay: relay, Port: port, Seq: seq, Data: DataVal{Rec: rec}}
+		}
 	}
+}
+
+// Honest returns the packet an honest relayer would present for ev's packet key: what the source chain really
+// announced. Genuine (unaltered) relayer messages of a behaviour are generated from the specification's view of the
+// sent packets; if the code sent something else, the relayer still relays what was really sent.
+func (a *Apps) Honest(ev *Event) bool {
+	if ev.Pkt == nil || (ev.Tag != "" && ev.Tag != "gen" && ev.Tag != "replay") || ev.Pkt.Data.Rec == nil {
+		return false
+	}
+	real, ok := a.sentByKey[fmt.Sprintf("%s|%s|%d", ev.Pkt.Src, ev.Pkt.Dst, ev.Pkt.Seq)]
+	if !ok {
+		return false
+	}
+	x, _ := json.Marshal(real)
+	y, _ := json.Marshal(ev.Pkt)
+	if string(x) == string(y) {
+		return false
+	}
+	cp := *real
+	ev.Pkt = &cp
+	return true
 }
 
 // decode abstracts real packet data bytes sent on port (abstract port name); nil if the port's application
